@@ -138,12 +138,43 @@ def r02_sched_agree(repo, sink, tier="quick"):
                ok="static output creates no scheduling dependency",
                bad="static output is reported as a scheduling dependency")
     _r02_max(repo, sink, reps, f)
+    _r02_independent(repo, sink, reps, f)
     sink.floor("R02", "kind chains", n, 85 * 2)
 
 
 def _subseq(a, b):
     it = iter(b)
     return all(x in it for x in a)
+
+
+def _r02_independent(repo, sink, reps, f):
+    """Two inputs on two different outputs: each link is walked on its own (no state of the
+    walk may leak from one input to the next)."""
+    worst = None
+    pairs = 0
+    for k1 in KINDS:
+        for k2 in KINDS:
+            pairs += 1
+            topo = Topo(repo)
+            a1, a2, b = topo.comp("S1"), topo.comp("S2"), topo.comp("DST")
+            o1, o2 = topo.output(a1), topo.output(a2)
+            e1 = topo.link(o1, [reps[k1]], b, "in1")
+            e2 = topo.link(o2, [reps[k2]], b, "in2")
+            it = SchedInterp(repo)
+            try:
+                paths = it.run_all(lambda: it.run(f, [b, dict(topo.owner), Sym("t")]))
+            except Undecided as u:
+                raise AnalysisError(f"_find_dependencies: {u}") from u
+            for (out, el, k) in ((o1, e1, k1), (o2, e2, k2)):
+                tau = data_path_term([k], [el[0].fields.get("_dname")], Sym("t"))
+                sub = []
+                for decs, outc in paths:
+                    sub.append((decs, outc))
+                why = _judge_walk(sub, out, tau, True)
+                if why and worst is None:
+                    worst = f"inputs via {k1} (first) and {k2} (second): link through {k}: {why}"
+    sink.check(worst is None, "R02", "walk:independent-inputs", f,
+               ok=f"{pairs} ordered pairs of adapter kinds on two inputs: every link is judged on its own", bad=worst or "")
 
 
 def _r02_max(repo, sink, reps, f):
@@ -242,6 +273,34 @@ def _scenarios(repo):
         t.link(t.output(p, pull=True), [reps[lek.DELAY]], a)
         return a
 
+    def pull_two_outputs(t):
+        # one pull-based component reached twice, for two different request times
+        b, p, a = t.comp("B"), t.comp("P", timed=False), t.comp("A")
+        _ads, reps = _reps(repo)
+        t.link(t.output(b), [], p)
+        t.link(t.output(p, "o1", pull=True), [reps[lek.DELAY]], a, "in1")
+        t.link(t.output(p, "o2", pull=True), [], a, "in2")
+        return a
+
+    def pull_two_outputs_rev(t):
+        b, p, a = t.comp("B"), t.comp("P", timed=False), t.comp("A")
+        _ads, reps = _reps(repo)
+        t.link(t.output(b), [], p)
+        t.link(t.output(p, "o1", pull=True), [], a, "in1")
+        t.link(t.output(p, "o2", pull=True), [reps[lek.DELAY]], a, "in2")
+        return a
+
+    def finished_upstream(t):
+        b, a = t.comp("B", status="FINISHED"), t.comp("A")
+        t.link(t.output(b), [], a)
+        return a
+
+    def finished_behind_pull(t):
+        b, p, a = t.comp("B", status="FINISHED"), t.comp("P", timed=False), t.comp("A")
+        t.link(t.output(b), [], p)
+        t.link(t.output(p, pull=True), [], a)
+        return a
+
     def fork(t):
         b, c, a = t.comp("B"), t.comp("C"), t.comp("A")
         t.link(t.output(b), [], a, "in1")
@@ -328,6 +387,10 @@ def _scenarios(repo):
     mk("via-pull", via_pull, "R03")
     mk("via-pull2", via_pull2, "R03")
     mk("via-pull-delayed", via_pull_delayed, "R03")
+    mk("pull-based-two-outputs-delayed-first", pull_two_outputs, "R03")
+    mk("pull-based-two-outputs-delayed-second", pull_two_outputs_rev, "R03")
+    mk("finished-upstream", finished_upstream, "R03")
+    mk("finished-upstream-behind-pull-based", finished_behind_pull, "R03")
     mk("fork", fork, "R03")
     mk("pull-then-time", pull_then_time, "R03")
     mk("shared-output", shared_time, "R03")
@@ -386,6 +449,8 @@ def _spec(topo, start, lag):
                     return r
         active.pop()
         if c.fields["_timed"]:
+            if c.fields["status"] == Sym("enum", "ComponentStatus", "FINISHED"):
+                return ("finished", c)
             return ("update", c)
         return None
 
@@ -433,13 +498,18 @@ def _judge_step(topo, start, decs, outcome, it):
         assign = dict(known)
         assign.update(zip(unknown, bits))
         admissible.append(_spec(topo, start, lambda o, t: assign[(id(o), t)]))
+    def _lbl(a):
+        return "cycle" if a == ("cycle",) else f"{'update' if a[0] == 'update' else 'refuse (already finished)'} {a[1].label}"
+
     kind, val = outcome
     if kind == "raise":
         name = val.name
         if name == "FinamCircularCouplingError":
             got = ("cycle",)
+        elif name == "FinamTimeError" and any(a[0] == "finished" for a in admissible):
+            got = next(a for a in admissible if a[0] == "finished")
         else:
-            exp = sorted({("cycle" if a == ("cycle",) else f"update {a[1].label}") for a in admissible})
+            exp = sorted({_lbl(a) for a in admissible})
             return f"ends in {name} ({val.exc!r}); expected {' / '.join(exp)}"
     else:
         val, updates = val
@@ -449,7 +519,7 @@ def _judge_step(topo, start, decs, outcome, it):
         if val is not updates[0]:
             return f"returns {val!r} but updated {updates[0]!r}"
     if not any(_same(got, a) for a in admissible):
-        exp = sorted({("cycle" if a == ("cycle",) else f"update {a[1].label}") for a in admissible})
+        exp = sorted({_lbl(a) for a in admissible})
         g = "circular-coupling error" if got == ("cycle",) else f"update of {got[1].label}"
         return f"{g}; the reference semantics gives {' / '.join(exp)} under lag assignment {_fmt_decs(decs)}"
     if got[0] == "update":
@@ -522,7 +592,7 @@ def r03_r09_step(repo, sink):
                    ok=f"{len(paths)} lag assignments: updated component / error as in the reference semantics",
                    bad=worst or "", paths=len(paths))
     sink.note("R03.step.paths", n_paths)
-    sink.floor("R03", "scheduling-step scenarios", len(_scenarios(repo)), 16)
+    sink.floor("R03", "scheduling-step scenarios", len(_scenarios(repo)), 20)
 
 
 def r09_structure(repo, sink):
